@@ -18,7 +18,8 @@ list files, signature files, database directories) and derives from its own stru
 Kinds:  cli (above; with --square the run is repeated with the queries supplied on both sides and the
 two CSV files must be equal), fmt (format(np.float32, '0.4f') against op 1602 / 1611 and Fraction),
 dump (gambit.cluster.dump_dmat_csv on arbitrary float32 matrices and ids, including length mismatches),
-label (gambit.cli.common.get_file_id against op 1603), ids (get_sequence_files call forms), and the two
+label (gambit.cli.common.get_file_id against op 1603), ids (get_sequence_files call forms), size (sides of 1001..2500
+signatures: command line and kernel calls against a class-table oracle), and the two
 sequence kinds of the state and aliasing audit (table at the end of this text): cliseq (a script of commands
 over one pool of files, run in one fresh process) and libseq (a script of library calls over one pool of objects).
 
@@ -53,6 +54,12 @@ i.e. the whole CSV against the expected table, is checked there; "+" = added by 
   + empty sides: empty list file, signature file / database without signatures, both sides empty   cli-empty-sides  P
   + larger sets (12..30 on a side)                                     cli-many                                   P
   + the command as a real process (python -m gambit ...; real stdout/stderr, OpenMP, worker processes)   cli-process   P
+  + SIZE CLASS: a side of 1001, 1002, 1024, 1026, 1500, 2049, 2050, 2500 (and random sizes between) tiny signatures (0/1..4 k-mers out of
+    4..8, so few distinct distances), supplied as signature file / database: --square (against the expected table, hence
+    symmetric with zero diagonal, and against --qs X --rs X), one side of the class x 1..5, both sides of the class
+    (thorough); jaccarddist_pairwise / jaccarddist_matrix at these sizes on SignatureArray / SignatureList / list / open
+    signature file with out= prefilled with NaN (a cell never written shows) and chunk sizes around the sizes.  quick: one
+    square table in 1026..1200 (1002 is in the corpus), the sizes above 2000 through a narrow table and the library calls (pairwise at >= 2050)   size-class (kind size)   P
   labels needing CSV quoting, blank lines / padding / CR LF in list files, a listed file twice    cli-ways-grid   P
   test database of the repository as references                        cli-testdb (2 in quick)                    P
   malformed command lines (two of a group, none, missing file, -d without database)   malformed (tie only: the
@@ -66,7 +73,9 @@ i.e. the whole CSV against the expected table, is checked there; "+" = added by 
     listfile_dir as str / Path)                                        ids-forms (label oracle only, no Coq model) P
   + the same sources / files / objects in SEVERAL calls (roles swapped, two databases, two directories, other -k/-p, a file
     rewritten, failing calls in between, repeats, a second thread)     cliseq, libseq (table "State and aliasing" below)  P
-Not driven (stated, not hidden): FASTA content classes (several records, line ends; C01/C06/C13 -- every file here holds
+Not driven (stated, not hidden): sides of more than 2600 genomes; sides of more than 30 genomes supplied as SEQUENCE files (the
+size class comes in through signature files and the database only); the Coq model on tables of the size class (10^6..10^7
+cells are not sent over the wire: kind size is judged by the class-table oracle alone); FASTA content classes (several records, line ends; C01/C06/C13 -- every file here holds
 one record with N runs and lower case), other accepted names of the database files (C04), k-mer parameter mismatches
 between the sources (C14), non-UTF-8 file names, corner= / fmt= of dump_dmat_csv (not used by the command).
 The audit streams use the model comparison too wherever the case is in the modelled domain (all cli and dump cases:
@@ -162,6 +171,10 @@ RULE = ('cli: (genomes, way of supplying queries x way of supplying references, 
         'k up to 32, prefix case, many workers); cli-duplicate-labels; cli-empty-sides (trivial by the rule above, still judged); cli-many '
         '(12..30 on a side); cli-process (python -m gambit); dump-forms = dump with other memory layouts / id containers / destinations; '
         'ids: list of paths + call form of get_sequence_files / get_file_id -> labels; non-trivial: >=2 paths, one with directory and extension.  '
+        'size-class (kind size): (seed of n = 1001..2600 signatures of 0/1..4 k-mers out of a universe of 4..8, k/prefix, ids plain / integer / repeating / '
+        'needing quotes, storage dtype, cores, -k/-p given or not; --square | --rs Y | -d with the other side 1..5 or also of the class) -> the whole CSV, '
+        'and for --square the CSV of --qs X --rs X; or (collection form, out= absent / prefilled with NaN, chunksize) -> float32 bit patterns of every cell of '
+        'jaccarddist_pairwise / jaccarddist_matrix; non-trivial: a side of more than 1000 signatures and at least two different cell texts.  '
         'sequence streams (state and aliasing): cliseq = (pool of FASTA files in two directories, list files, signature files, databases, two '
         'k-mer parameter sets; script of 2..6 gambit dist commands over the pool, some built to fail, some after a file was rewritten, some in a '
         'second thread / as a real process) -> per good step the CSV table, judged as in kind cli, + input files unchanged + same command, same '
@@ -176,6 +189,11 @@ TRUSTED = ['csv module: csv.reader(csv.writer(rows)) returns the rows (labels wi
            'signatures of the files in order (C13), FASTA parsing (C01/C06): files enter the model as the genome they hold',
            'np.float32.__format__ = float.__format__ of the exactly converted double (modelled by fmt4, sampled by kind fmt)',
            'harness: pure-Python reference signatures, Fraction rounding oracle, builders of list files / signature files / databases',
+           'kind size (size-class stream): the oracle is a table over the classes of equal signatures: cell text = round(Fraction(1 - |A n B| / |A u B|) * 10^4) '
+           'half-even (0 for two empty sets; unions stay below 32 elements, so no exact tie and no binary32 effect at the fourth decimal; the kernel on one '
+           'representative pair per class pair is checked against it and supplies the expected bit pattern of the library calls); every row of a class is compared '
+           'with that class row as a whole list; the two CSV files of a --square case are compared as bytes first (equal bytes, equal tables); a NaN block of '
+           'the matrix size is allocated and released before each run so that cells never written tend to show as nan; no Coq model at this size',
            'sequence streams: multiprocessing fork server (a cliseq script runs in a child forked from a server that imported gambit and ran '
            'nothing; the child resets the start method to the default of a plain process so that the command forks its workers as usual); '
            'sha1 of the files below the pool directory as the observable of "inputs unmodified"; ndarray.tobytes() / dtype / shape and repr of '
@@ -1689,7 +1707,274 @@ def k_libseq(ctx, cases):
 			              impl=_short(failed[1]) if isinstance(failed[1], tuple) else failed[1], spec=_short(failed[2]) if isinstance(failed[2], tuple) else failed[2])
 
 
-KINDS = {'cli': k_cli, 'fmt': k_fmt, 'dump': k_dump, 'label': k_label, 'ids': k_ids, 'cliseq': k_cliseq, 'libseq': k_libseq}
+# -- size class: a side of 1001 .. 2500 signatures (kind size) -------------------------------------------------------
+
+SIZE_MID = [1001, 1002, 1024, 1026, 1500]  # block + 1 (the last size ONE block of 1000 / 1024 columns after a row serves), block + 2, inside
+SIZE_TOP = [2049, 2050, 2500]              # the same around 2048, and above 2 x 1024 + 2 / 2 x 1000 + 2
+SIZE_KSPECS = [(5, 'AC'), (6, 'AT'), (7, 'ATG'), (8, 'GA'), (11, 'ATGAC'), (16, 'AT')]
+
+
+def size_sets(case):
+	"""the signatures of a size-class case, from its seed: every signature holds lo..maxlen k-mer indices out of a universe of
+	`univ` indices (few distinct signatures, few distinct distances)  ->  (queries, references) as lists of sorted tuples;
+	with r = 'square' / 'same' the references ARE the queries"""
+	rng = random.Random(case['seed'])
+	U = rng.sample(range(4 ** case['k']), case['univ'])
+	lo = 0 if case.get('empty') else 1
+	hi = min(case['maxlen'], case['univ'])
+
+	def draw(n):
+		return [tuple(sorted(rng.sample(U, rng.randint(lo, hi)))) for _ in range(n)]
+	Q = draw(case['nq'])
+	R = Q if case['r'] in ('square', 'same') else draw(case['nr'])
+	return Q, R
+
+
+def size_ids(style, n, tag):
+	if style == 'int':
+		return [str(1000 + 3 * i) for i in range(n)]
+	if style == 'dup':
+		return [f'{tag}{i % 7}' for i in range(n)]            # labels that repeat
+	if style == 'odd':
+		return [f'{tag} {i}, "x"' if i % 3 == 0 else f'{tag}/{i}.fa' for i in range(n)]      # need CSV quoting
+	return [f'{tag}{i:04d}' for i in range(n)]
+
+
+def size_tables(Q, R, k, prefix):
+	"""equal signatures form a class; per pair (query class, reference class): the exact distance 1 - |A n B| / |A u B| (0 for two
+	empty sets) rounded half-even to four decimals as text, and the binary32 pattern the distance kernel returns for one
+	representative pair.  -> (class of every query, class of every reference, text[a][b], bits[a, b], kernel_agrees)"""
+	import numpy as np
+	from gambit.kmers import KmerSpec
+	from gambit.metric import jaccarddist
+	dt = KmerSpec(k, prefix).index_dtype
+	cq, cr = {}, {}
+	qc = [cq.setdefault(s, len(cq)) for s in Q]
+	rc = [cr.setdefault(s, len(cr)) for s in R]
+	qs, rs = list(cq), list(cr)
+	qa = [np.array(x, dtype=dt) for x in qs]
+	ra = [np.array(y, dtype=dt) for y in rs]
+	rset = [frozenset(y) for y in rs]
+	text = []
+	bits = np.zeros((len(qs), len(rs)), dtype=np.uint32)
+	agrees = True
+	for a, x in enumerate(qs):
+		sx = frozenset(x)
+		row = []
+		for b, sy in enumerate(rset):
+			u = len(sx | sy)
+			d = Fraction(0) if u == 0 else 1 - Fraction(len(sx & sy), u)
+			n = round(d * 10000)
+			row.append(f'{n // 10000}.{n % 10000:04d}')
+			bits[a, b] = f32_bits(jaccarddist(qa[a], ra[b]))
+			if py_fmt4(int(bits[a, b])) != row[-1]:
+				agrees = False
+		text.append(row)
+	return qc, rc, text, bits, agrees
+
+
+def _size_poison(shape):
+	"""a block of the size of the distance matrix, filled with NaN, is allocated and released just before the run: a cell the
+	implementation never writes then tends to show as nan rather than as a plausible leftover of an earlier matrix"""
+	import numpy as np
+	p = np.full(shape, np.nan, dtype=np.float32)
+	del p
+
+
+def _size_table_diff(rows, qids, rids, qc, ROW, square):
+	"""None if the parsed CSV is the expected table, else (description, excerpt of what was read, excerpt of what was expected)"""
+	if len(rows) != len(qids) + 1:
+		return f'{len(rows)} CSV rows, expected {len(qids) + 1}', None, None
+	if rows[0] != [''] + rids:
+		j = next((j for j, (c, e) in enumerate(zip(rows[0], [''] + rids)) if c != e), min(len(rows[0]), len(rids) + 1))
+		return f'header has {len(rows[0])} fields (expected {len(rids) + 1}), first difference at column {j}', rows[0][max(0, j - 2):j + 3], ([''] + rids)[max(0, j - 2):j + 3]
+	bad = [i for i, row in enumerate(rows[1:]) if row[:1] != [qids[i]] or row[1:] != ROW[qc[i]]]
+	if not bad:
+		return None
+	i = bad[0]
+	row, exp = rows[i + 1], [qids[i]] + ROW[qc[i]]
+	if len(row) != len(exp):
+		return f'row {i + 1} has {len(row)} fields, expected {len(exp)}', row[:6], exp[:6]
+	j = next(j for j, (c, e) in enumerate(zip(row, exp)) if c != e)
+	what = f'{"label" if j == 0 else "cell"} at row {i + 1} ({qids[i]!r}) column {j} ({rids[j - 1]!r}) is {row[j]!r}, expected {exp[j]!r}' if j else \
+		f'label of row {i + 1} is {row[0]!r}, expected {exp[0]!r}'
+	ncell = sum(1 for i2 in bad if len(rows[i2 + 1]) == len(ROW[qc[i2]]) + 1 for c, e in zip(rows[i2 + 1][1:], ROW[qc[i2]]) if c != e)
+	what += f'; {ncell} wrong cells in {len(bad)} wrong rows'
+	if ncell and square and all(len(r) == len(rows[0]) for r in rows):
+		n = len(qids)
+		asym = sum(1 for a in bad for b in range(n) if rows[a + 1][b + 1] != rows[b + 1][a + 1])
+		diag = sum(1 for a in bad if rows[a + 1][a + 1] != '0.0000')
+		what += f'; the square table is not symmetric at {asym} cells of these rows, {diag} diagonal cells are not 0.0000'
+	return what, {'row': i + 1, 'col': j, 'cells': row[max(1, j - 2):j + 3]}, {'row': i + 1, 'col': j, 'cells': exp[max(1, j - 2):j + 3]}
+
+
+def _size_cli(ctx, case, Q, R, qc, rc, text, wd):
+	"""gambit dist with a side of the size class, supplied as signature file / database; the whole CSV against the expected
+	table; --square also against the run with the queries on both sides"""
+	k, prefix = case['k'], case['prefix']
+	nq, nr = len(Q), len(R)
+	square = case['r'] == 'square'
+	qclasses = sorted(set(qc), key=qc.index)
+	reps_q = {c: Q[qc.index(c)] for c in qclasses}
+	genomes, gq = [], {}
+	for c in qclasses:
+		gq[c] = len(genomes)
+		genomes.append({'syn': list(reps_q[c])})
+	style = case.get('ids', 'plain')
+	qids = size_ids(style, nq, 'q')
+	qf = os.path.join(wd, 'q-sigs.gs')
+	_write_sigs(qf, [[qids[i], gq[qc[i]]] for i in range(nq)], genomes, k, prefix, style == 'int', case.get('dtype'), case.get('idkind'))
+	root, side = [], []
+	if square:
+		rids = qids
+		side = ['-s']
+	else:
+		gr = {}
+		for c in sorted(set(rc), key=rc.index):
+			gr[c] = len(genomes)
+			genomes.append({'syn': list(R[rc.index(c)])})
+		rids = size_ids(style, nr, 'r')
+		items = [[rids[i], gr[rc[i]]] for i in range(nr)]
+		if case['r'] == 'db':
+			_make_db(os.path.join(wd, 'db'), items, genomes, k, prefix, style == 'int', case.get('dtype'), case.get('idkind'))
+			root, side = ['-d', os.path.join(wd, 'db')], ['-d']
+		else:
+			rf = os.path.join(wd, 'r-sigs.gs')
+			_write_sigs(rf, items, genomes, k, prefix, style == 'int', case.get('dtype'), case.get('idkind'))
+			side = ['--rs', rf]
+	opts = ['--no-progress']
+	if case.get('kopt'):
+		opts += ['-k', str(k), '-p', prefix]
+	if case.get('cores') is not None:
+		opts += ['-c', str(case['cores'])]
+	out = os.path.join(wd, 'out.csv')
+	args = root + ['dist', '-o', out] + opts + ['--qs', qf] + side
+	ROW = {c: [text[c][rc[j]] for j in range(nr)] for c in set(qc)}
+	_size_poison((nq, nr))
+	obs = run_cli(args, out)
+	shown = [a.replace(wd, '$WD') for a in args]
+	desc = f'gambit {" ".join(shown)} ({nq} queries x {nr} references)'
+	if obs[0] != 'ok':
+		return f'{desc}: the command failed ({str(obs)[:300]}) where a table was expected', obs, None
+	diff = _size_table_diff(obs[1], qids, rids, qc, ROW, square)
+	if diff:
+		return f'{desc}: {diff[0]}', diff[1], diff[2]
+	if square:
+		ctx.count('size:square-both-sides')
+		out2 = os.path.join(wd, 'both.csv')
+		args2 = ['dist', '-o', out2] + opts + ['--qs', qf, '--rs', qf]
+		_size_poison((nq, nq))
+		obs2 = run_cli(args2, out2)      # the two files are compared as bytes first (equal bytes, equal tables)
+		with open(out, 'rb') as f1, open(out2, 'rb') as f2:
+			same = obs2[0] == 'ok' and f1.read() == f2.read()
+		if not same and obs2 != obs:
+			return (f'{desc}: --square differs from supplying the queries on both sides (--qs X --rs X): {_first_diff(obs2, obs)}',
+			        _short(obs), _short(obs2))
+	return None
+
+
+def _size_lib(ctx, case, Q, R, qc, rc, bits, wd):
+	"""jaccarddist_pairwise / jaccarddist_matrix as dist_cmd calls them, on collections of the size class; out= prefilled with NaN
+	shows every cell that is not written"""
+	import numpy as np
+	from gambit.kmers import KmerSpec
+	from gambit.sigs import SignatureList, SignatureArray, AnnotatedSignatures, SignaturesMeta, dump_signatures, load_signatures
+	from gambit.metric import jaccarddist_matrix, jaccarddist_pairwise
+	kspec = KmerSpec(case['k'], case['prefix'])
+	dt = np.dtype(case['dtype']) if case.get('dtype') else kspec.index_dtype
+	closers = []
+
+	def coll(S, name):
+		arrs = [np.array(x, dtype=dt) for x in S]
+		form = case.get('form', 'sigarray')
+		if form == 'list':
+			return arrs
+		if form == 'siglist':
+			return SignatureList(arrs, kspec, dtype=dt)
+		if form == 'h5':
+			path = os.path.join(wd, name + '.gs')
+			ids = np.array([f'{name}{i}' for i in range(len(S))], dtype=object)
+			dump_signatures(path, AnnotatedSignatures(SignatureList(arrs, kspec, dtype=dt), ids, SignaturesMeta(id_attr='key')), 'hdf5')
+			obj = load_signatures(path)           # open during the call, as in dist_cmd
+			closers.append(obj.close)
+			return obj
+		return SignatureArray(arrs, kspec, dtype=dt)
+	try:
+		qo = coll(Q, 'q')
+		pairwise = case['op'] == 'pairwise'
+		ro = qo if case['r'] in ('square', 'same') else coll(R, 'r')
+		shape = (len(Q), len(R))
+		kw = {}
+		if case.get('out') == 'nan':
+			kw['out'] = np.full(shape, np.nan, dtype=np.float32)
+		else:
+			_size_poison(shape)
+		if not pairwise and case.get('chunk'):
+			kw['chunksize'] = case['chunk']
+		desc = f'{"jaccarddist_pairwise(sigs" if pairwise else "jaccarddist_matrix(queries, " + ("queries" if ro is qo else "refs")}' + \
+			''.join(f', {k}={"<float32 array filled with NaN>" if k == "out" else v}' for k, v in kw.items()) + \
+			f') on {case.get("form", "sigarray")} collections of {shape[0]} x {shape[1]} signatures'
+		try:
+			got = jaccarddist_pairwise(qo, **kw) if pairwise else jaccarddist_matrix(qo, ro, **kw)
+		except Exception as e:      # noqa: a good call
+			return f'{desc}: raised {type(e).__name__}: {e}', None, None
+		got = np.asarray(got)
+		if got.dtype != np.float32 or got.shape != shape:
+			return f'{desc}: returned dtype {got.dtype} shape {got.shape}, expected float32 {shape}', None, None
+		if 'out' in kw and not np.shares_memory(got, kw['out']):
+			return f'{desc}: out= was given and the matrix returned is another array', None, None
+		E = bits[np.ix_(qc, rc)] if len(Q) and len(R) else np.zeros(shape, dtype=np.uint32)
+		G = got.view(np.uint32)
+		if not np.array_equal(G, E):
+			wrong = np.argwhere(G != E)
+			i, j = (int(x) for x in wrong[0])
+			what = f'{desc}: {len(wrong)} cells differ from the distance of their pair (float32 bit patterns), first at [{i}, {j}]: {float(got[i, j])!r}, expected {float(E.view(np.float32)[i, j])!r}'
+			nan = int(np.isnan(got).sum())
+			if nan:
+				what += f'; {nan} cells still hold the NaN of the buffer handed over / released before the call (never written)'
+			if shape[0] == shape[1] and ro is qo:
+				what += f'; not symmetric at {int((G != G.T).sum())} cells, {int((np.diagonal(G) != 0).sum())} diagonal cells are not +0.0'
+			return what, {'at': [i, j], 'value': repr(float(got[i, j])), 'bits': int(G[i, j])}, {'at': [i, j], 'value': repr(float(E.view(np.float32)[i, j])), 'bits': int(E[i, j])}
+		return None
+	finally:
+		for c in closers:
+			try:
+				c()
+			except Exception:
+				pass
+
+
+def k_size(ctx, cases):
+	"""size class: one side (or both) holds 1001 .. 2500 signatures.  mode cli: gambit dist --qs X with -s / --rs Y / -d, the whole
+	CSV against the expected table (labels in order, every cell = exact distance rounded to four decimals; --square: hence
+	symmetric with zero diagonal, and equal to the --qs X --rs X run).  mode lib: the kernel calls dist_cmd makes, float32 bit
+	patterns of every cell.  No Coq model here (a table of 10^6 .. 10^7 cells is not sent over the wire): the oracle is the
+	class table of size_tables."""
+	for case in cases:
+		Q, R = size_sets(case)
+		qc, rc, text, bits, agrees = size_tables(Q, R, case['k'], case['prefix'])
+		off = {text[a][b] for a in set(qc) for b in set(rc)}
+		nontriv = max(len(Q), len(R)) > 1000 and min(len(Q), len(R)) >= 1 and len(off) >= 2
+		ctx.case(case, nontrivial=nontriv)
+		ctx.count('size:mode=' + case['mode'] + ':' + (case.get('op') or case['r']))
+		ctx.count('size:n>2000' if max(len(Q), len(R)) > 2000 else ('size:n>1001' if max(len(Q), len(R)) > 1001 else 'size:n<=1001'))
+		if nontriv:
+			ctx.count('size:nontrivial')
+		if not agrees:
+			ctx.broke('hypothesis of kind size (the distance kernel on a pair of tiny signatures, rounded to four decimals, is the exact '
+			          'Jaccard distance rounded to four decimals; C02/C05)', f'case {case}')
+		wd = _workdir()
+		if case['mode'] == 'cli':
+			fail = _size_cli(ctx, case, Q, R, qc, rc, text, wd)
+		else:
+			fail = _size_lib(ctx, case, Q, R, qc, rc, bits, wd)
+		if fail:
+			ctx.violation('size', case, 'size class (a side of more than 1000 signatures): ' + fail[0], impl=fail[1], spec=fail[2])
+		import shutil
+		shutil.rmtree(wd, ignore_errors=True)      # tens of megabytes of CSV per case
+
+
+KINDS = {'cli': k_cli, 'fmt': k_fmt, 'dump': k_dump, 'label': k_label, 'ids': k_ids, 'cliseq': k_cliseq, 'libseq': k_libseq, 'size': k_size}
 
 
 # ------------------------------------------------------------------------------------------------
@@ -2394,6 +2679,68 @@ def seq_streams(ctx, rng):
 		yield 'libseq', rand_libseq(rng)
 
 
+def size_stream(ctx, rng):
+	"""size class (kind size): sides of 1001 .. 2500 tiny signatures.  cli: --qs X with --square (judged against the expected
+	table and against --qs X --rs X), with --rs Y and with -d (one side of the class, the other of 1..5; in thorough also both);
+	lib: jaccarddist_pairwise / jaccarddist_matrix on SignatureArray / SignatureList / plain list / open signature file, out= absent
+	or prefilled with NaN, chunksize absent or around the sizes.  quick keeps the CSV work small: one square table above 1001,
+	the sizes above 2000 through a narrow table and through the library calls"""
+	def base(mode, nq, r, nr=None):
+		k, prefix = rng.choice(SIZE_KSPECS)
+		c = {'mode': mode, 'k': k, 'prefix': prefix, 'seed': rng.randrange(10 ** 6), 'univ': rng.randint(4, 8), 'maxlen': rng.randint(2, 4), 'nq': nq, 'r': r}
+		if nr is not None:
+			c['nr'] = nr
+		if rng.random() < 0.25:
+			c['empty'] = True
+		if rng.random() < 0.3:
+			c['dtype'] = rng.choice(wider_dtypes(k, prefix))
+		return c
+
+	def cli(nq, r, nr=None):
+		c = base('cli', nq, r, nr)
+		c['ids'] = rng.choice(['plain', 'plain', 'int', 'dup', 'odd'])
+		if c['ids'] == 'int' and rng.random() < 0.5:
+			c['idkind'] = rng.choice(['i4', 'u4', 'i8', 'u8'])
+		elif c['ids'] in ('plain', 'dup') and rng.random() < 0.4:
+			c['idkind'] = rng.choice(['U', 'S'])
+		c['cores'] = rng.choice([None, 1, 2, 3, 4])
+		c['kopt'] = rng.random() < 0.5
+		return c
+
+	def lib(op, nq, r, nr=None):
+		c = base('lib', nq, r, nr)
+		c['op'] = op
+		c['form'] = rng.choice(['sigarray', 'sigarray', 'h5', 'h5', 'siglist', 'list'])
+		if rng.random() < 0.7:
+			c['out'] = 'nan'
+		if op == 'matrix' and rng.random() < 0.7:
+			n = nq if nr is None else nr
+			c['chunk'] = rng.choice([1000, 1001, 999, 1024, 512, 256, n - 1, n, n + 1, n // 2, n // 2 + 1])
+		return c
+	between = lambda: rng.choice([rng.randint(1002, 1100), rng.randint(1002, 2600)])
+	# the square table through the command line
+	for n in ctx.pick([rng.choice([1026, rng.randint(1027, 1200)])], SIZE_MID + SIZE_TOP + [between() for _ in range(3)]):
+		ctx.count('stream:size-class')
+		yield 'size', cli(n, 'square')
+	# one side of the class against a few, references from a signature file / the database; thorough: both sides of the class
+	rect = [(rng.randint(1, 5), rng.choice(SIZE_TOP), rng.choice(['sigs', 'db'])), (rng.choice(SIZE_MID[1:] + SIZE_TOP), rng.randint(1, 4), rng.choice(['sigs', 'db']))]
+	rect += ctx.pick([], [(rng.randint(1, 5), n, w) for n in SIZE_MID + SIZE_TOP for w in ('sigs', 'db')] + [(n, rng.randint(1, 5), 'sigs') for n in SIZE_MID + SIZE_TOP] +
+	                 [(1100, 1030, 'db'), (1002, 1500, 'sigs'), (between(), between(), rng.choice(['sigs', 'db']))])
+	for nq, nr, way in rect:
+		ctx.count('stream:size-class')
+		yield 'size', cli(nq, way, nr)
+	# the kernel calls of dist_cmd
+	for n in ctx.pick([rng.choice([2050, rng.randint(2051, 2300)])], (SIZE_MID + SIZE_TOP) * 2 + [between() for _ in range(4)]):
+		ctx.count('stream:size-class')
+		yield 'size', lib('pairwise', n, 'square')
+	for n in ctx.pick([rng.choice(SIZE_MID[1:])], SIZE_MID + SIZE_TOP + [between() for _ in range(2)]):
+		ctx.count('stream:size-class')
+		yield 'size', lib('matrix', n, 'same')
+	for nq, nr in ctx.pick([(rng.randint(1, 6), rng.choice(SIZE_MID[1:] + SIZE_TOP))], [(rng.randint(1, 6), n) for n in SIZE_MID + SIZE_TOP] + [(n, rng.randint(1, 6)) for n in SIZE_TOP] + [(1030, 1100)]):
+		ctx.count('stream:size-class')
+		yield 'size', lib('matrix', nq, 'sigs', nr)
+
+
 def finish(ctx):
 	"""report order: a cliseq violation is replayed alone in a fresh process and shows itself there; a cli case found in the
 	same campaign may owe its failure to what EARLIER cases left in the harness process (its single-case replay then shows
@@ -2434,6 +2781,7 @@ def generate(ctx):
 		ctx.count('stream:cli-testdb')
 		yield 'cli', c
 	yield from audit_streams(ctx, rng)
+	yield from size_stream(ctx, rng)
 	yield from seq_streams(ctx, rng)
 	# malformed command lines
 	for c in malformed(rng):
